@@ -12,4 +12,4 @@ else
   git -C "$wt" apply "$1"
 fi
 git -C "$wt" diff --stat | tail -3
-cd /verif && MCHAP_REPO="$wt" ./run_check "$id" "$tier" || echo "exit=$?"
+cd /verif && VERIF_EVIDENCE_DIR=/tmp/mchap-mut-evidence VERIF_REPLAY_DIR=/tmp/mchap-mut-replays MCHAP_REPO="$wt" ./run_check "$id" "$tier" || echo "exit=$?"
